@@ -203,6 +203,7 @@ Section AstSem.
           end
       | ESubLv g re repl lv =>
           if negb (Nat.eqb (p_builtin_arity P (if g then BGsub else BSub)) 3) then EWrong else
+          if (match lv with LVar _ _ => true | _ => false end) then EWrong else
           let* (ref, m0) := eval_lref n' lv m in
           let* (inv, m1) := lref_read m0 ref in
           let* (rev_, m2) := eval n' re m1 in
@@ -228,12 +229,10 @@ Section AstSem.
             if maxCallDepth <=? depth m1 then EAbort (XError (p_err_depth P fi)) m1 else
             let m2 := {| ms := p_push_arrays P (ms m1) (args_arrays a) (f_narrays fn);
                          frame := pad_nulls vs nsc; depth := depth m1 + 1 |} in
-            let restore := fun m3 : mstate =>
-              {| ms := p_pop_arrays P (ms m3); frame := frame m1; depth := depth m1 |} in
             match exec_stmts n' false (f_body fn) m2 with
-            | RNormal m3 => ENormal (p_null P) (restore m3)
-            | RReturn v m3 => ENormal v (restore m3)
-            | RAbort x m3 => EAbort x (restore m3)
+            | RNormal m3 => ENormal (p_null P) (restore P m1 m3)
+            | RReturn v m3 => ENormal v (restore P m1 m3)
+            | RAbort x m3 => EAbort x (restore P m1 m3)
             | RBreak _ | RContinue _ | RWrong => EWrong
             | RFuel => EFuel
             end
@@ -415,3 +414,35 @@ Section AstSem.
     end.
 
 End AstSem.
+
+Arguments ENormal {value St err A}.
+Arguments EAbort {value St err A}.
+Arguments EWrong {value St err A}.
+Arguments EFuel {value St err A}.
+Arguments RNormal {value St err}.
+Arguments RBreak {value St err}.
+Arguments RContinue {value St err}.
+Arguments RReturn {value St err}.
+Arguments RAbort {value St err}.
+Arguments RWrong {value St err}.
+Arguments RFuel {value St err}.
+Arguments RVar {value}.
+Arguments RField {value}.
+Arguments RIndex {value}.
+Arguments eval {value St err}.
+Arguments eval_exprs {value St err}.
+Arguments eval_index {value St err}.
+Arguments eval_lref {value St err}.
+Arguments eval_args {value St err}.
+Arguments exec {value St err}.
+Arguments exec_stmts {value St err}.
+Arguments exec_loop {value St err}.
+Arguments lref_read {value St err}.
+Arguments lref_write {value St err} P {A}.
+Arguments ebind {value St err A B}.
+Arguments sbind {value St err A}.
+Arguments of_er {value St err A}.
+Arguments of_pure_er {value St err A}.
+Arguments of_w {value St err A}.
+Arguments pad_nulls {value St err}.
+Arguments redir_src {value}.
